@@ -133,7 +133,7 @@ Proof. apply existsb_eqb_in. Qed.
 
 Lemma norm_tok_of l : lex_ok l = true -> norm_tok (tok_of l) = [tok_norm l].
 Proof.
-  intros OK. destruct l as [e| | |ip fp ex|rs|ds|rs|op cl items|op cl items|items|tag body]; cbn [tok_of tok_norm].
+  intros OK. destruct l as [e| | |ip fp ex|rs|ds|rs|op cl items|op cl items|items|tag body|trs]; cbn [tok_of tok_norm].
   - apply norm_tok_id. right. cbn [lex_ok] in OK.
     apply existsb_exists in OK. destruct OK as (e' & IN & EQ). apply op_eqb_eq in EQ. subst e'.
     pose proof ops_types as F. rewrite forallb_forall in F. apply in_nonword. exact (F _ IN).
@@ -157,6 +157,7 @@ Proof.
   - apply norm_tok_id. left. discriminate.
   - apply norm_tok_id. left. discriminate.
   - apply norm_tok_id. right. apply in_nonword. vm_compute. reflexivity.
+  - apply norm_tok_id. left. discriminate.
 Qed.
 
 (* a completed two-word keyword token is split into the normal forms of its two words *)
